@@ -177,3 +177,28 @@ Example ex_as_u64_float : ap_as_u64 [49; 46; 48] = None /\ ap_is_f64 [49; 46; 48
 Proof. vm_compute. split; reflexivity. Qed.
 Example ex_as_f64_overflow : ap_as_f64 [49; 101; 52; 48; 48] = None.                            (* 1e400 *)
 Proof. vm_compute. reflexivity. Qed.
+
+(* ---- the arbitrary_precision number scanner (scan_or_eof, scan_integer, scan_number, scan_decimal, scan_exponent, and scan_integer128) is the code of src/de.rs as
+        TRANSLATED ON THIS RUN: tools/translate_scan.py parses the six bodies into the imperative AST of Model/ScanAst.v (Gen/ScanTables.v); the hand-written models of
+        Model/Num.v equal the interpretation of the translated bodies over the same cursor primitives, for every state and enough fuel ---- *)
+From Coq Require Import String.
+From SJ Require Import Base.Bytes Base.Utf8 Model.Read Model.Num Model.ScanAst Gen.ScanTables.
+Require Import Lia.
+From SJ Require Import Proofs.ScanSrc.
+Theorem C20_scanner_is_source : forall (E : env) (s : st) (buf : bytes) (fuel : nat),
+  ((2 <= fuel)%nat ->
+     run_scan fuel E SCAN_TABLE "scan_or_eof" None s buf =
+     let* (b, s') := Num.scan_or_eof E s in Ok (RByte b, buf ++ utf8_encode b, s')) /\
+  ((length (rest s) + 18 <= fuel)%nat ->
+     run_scan fuel E SCAN_TABLE "scan_integer" None s buf = lift buf (Num.scan_integer E s)) /\
+  ((length (rest s) + 12 <= fuel)%nat ->
+     run_scan fuel E SCAN_TABLE "scan_number" None s buf = lift buf (Num.scan_number E s)) /\
+  ((length (rest s) + 9 <= fuel)%nat ->
+     run_scan fuel E SCAN_TABLE "scan_decimal" None s buf = lift buf (Num.scan_decimal E s)) /\
+  (forall e : byte, e < 128 -> (length (rest s) + 6 <= fuel)%nat ->
+     run_scan fuel E SCAN_TABLE "scan_exponent" (Some e) s buf = lift buf (Num.scan_exponent E e s)) /\
+  ((length (rest s) + 6 <= fuel)%nat ->
+     run_scan fuel E SCAN_TABLE "scan_integer128" None s buf = lift buf (Num.scan_integer128 E s)).
+Proof. exact (@ScanSrc.scan_model_is_translated_source). Qed.
+Print Assumptions C20_scanner_is_source.
+
